@@ -10,6 +10,7 @@ import (
 	"strings"
 
 	"verifharness/hk"
+	"verifharness/props/c01"
 	"verifharness/stores"
 )
 
@@ -74,6 +75,20 @@ func genTree(r *hk.Rand, depth int, diskLeaves, noRep bool) *stores.Node {
 	two := func(k string) *stores.Node {
 		return &stores.Node{Kind: k, Kids: []*stores.Node{genTree(r, depth-1, diskLeaves, noRep), genTree(r, depth-1, diskLeaves, noRep)}}
 	}
+	// shard and replica over 2, 3 or 4 sub-stores; below a 3- or 4-way node the sub-trees are at most one
+	// level deep, so that the number of leaves (each with its own schedule, each call of each a case of
+	// the exhaustive single-fault pass) stays in the range of the two-way trees
+	fanN := func(k string) *stores.Node {
+		n := []int{2, 2, 3, 3, 4}[r.Intn(5)]
+		if n == 2 {
+			return two(k)
+		}
+		nd := &stores.Node{Kind: k}
+		for i := 0; i < n; i++ {
+			nd.Kids = append(nd.Kids, genTree(r, min(depth-1, 1), diskLeaves, noRep))
+		}
+		return nd
+	}
 	switch r.Intn(8) {
 	case 0:
 		return &stores.Node{Kind: "ns", Kids: []*stores.Node{genTree(r, depth-1, diskLeaves, noRep)}}
@@ -87,17 +102,17 @@ func genTree(r *hk.Rand, depth int, diskLeaves, noRep bool) *stores.Node {
 	case 3, 4:
 		return two("overlay")
 	case 5:
-		return two("shard")
+		return fanN("shard")
 	case 6:
 		if noRep {
-			return two("shard")
+			return fanN("shard")
 		}
 		if r.Chance(50) {
-			return two("replica")
+			return fanN("replica")
 		}
 		return two("cond")
 	default:
-		return two("shard")
+		return fanN("shard")
 	}
 }
 
@@ -482,6 +497,13 @@ func genCases(r *hk.Run) {
 	}
 	for t := 0; t < nTrees; t++ {
 		tree := genTree(rnd, 1+rnd.Intn(3), t%4 == 3, false)
+		if t%5 == 2 {
+			// every fifth tree: a 3- or 4-way shard / replica at the root, over leaves and one-level trees
+			tree = &stores.Node{Kind: []string{"shard", "replica"}[(t/5)%2]}
+			for i, n := 0, 3+rnd.Intn(2); i < n; i++ {
+				tree.Kids = append(tree.Kids, genTree(rnd, rnd.Intn(2), t%4 == 3, false))
+			}
+		}
 		if hasKind(tree, "replica", "cond") {
 			// replica cancels the context of its other replicas as soon as one fails; localdisk and
 			// diskpacked then fail their stat too (StatBlobsParallelHelper looks at the context), or not,
@@ -513,7 +535,8 @@ func genCases(r *hk.Run) {
 		hist := genHistory(rnd, pool, nHist/2+rnd.Intn(nHist), hm)
 		cont := genHistory(rnd, pool, 8, cm)
 		label := tree.String()
-		r.Hit("root:" + tree.Kind)
+		r.Hit("root:" + c01.KindToken(tree))
+		c01.CountFans(r, tree, "root")
 		// the healthy run: how many calls does each leaf see?
 		healthy := make([]string, len(leaves))
 		for i := range healthy {
